@@ -51,7 +51,7 @@ LX_BLANK = {'tok': {'k': 'ws', 's': ' ', 'q': [0, 1], 'a': False}, 'ch': ['SP']}
 _NAMES = {'x': 'x', 'y': 'y', 'z': 'z', 'n': 'n', 'w': 'w', 'X': 'X', 'xp': "x'", 'a': 'a', 'a1': 'a_{1}',
           'a01': 'a_{01}', 'am2': 'a_{-2}', 'am0': 'a_{-0}', 'a0': 'a_{0}', 'A1': 'A_{1}', 'as1': 'a_1',
           'ab1': 'ab_{1}', 'sib1': 'sibling_1', 'sib2': 'sibling_2', 'pi': 'pi', 'c': 'c', 'sin': 'sin', 'cos': 'cos',
-          'sinh': 'sinh', 'abs': 'abs', 'f': 'f', 'Sin': 'Sin', 'si': 'si', 'k': 'k', 'm': 'm', 'q': 'q'}
+          'sinh': 'sinh', 'abs': 'abs', 'f': 'f', 'Sin': 'Sin', 'si': 'si', 'k': 'k', 'm': 'm', 'q': 'q', 'u': 'u', 'v': 'v'}
 _OPS = {'lp': '(', 'rp': ')', 'lb': '[', 'rb': ']', 'cm': ',', 'pl': '+', 'mi': '-', 'ti': '*', 'dv': '/', 'pw': '^'}
 LXTAB = {'n0': lx_num('0', 0), 'n1': lx_num('1', 1), 'n2': lx_num('2', 2), 'n3': lx_num('3', 3), 'pct': LX_PCT}
 LXTAB.update({i: lx_name(s) for i, s in _NAMES.items()})
@@ -86,7 +86,7 @@ def V(n, d=1):
 FIN = {'k': 'fin'}
 NP = {'k': 'np'}
 VALTAB = {'x': V(2), 'y': V(5), 'z': V(3), 'a': V(7), 'c': V(11), 'pi': FIN, 'e': FIN, 'i': NP, 'j': NP, 'infty': NP,
-          'sibling_1': V(12)}
+          'sibling_1': V(12), 'sibling_2': NP}
 FORB = {'none': [], 'times0': [['*', '0']], 'plus2': [['+', 'SP', '2']], 'sin': [['s', 'i', 'n']]}
 
 
@@ -99,12 +99,23 @@ def cfg_from_dims(kind, d, answers):
     if kind == 'sum':
         consts.append('infty')
     fm = d['fmode']
+    route = d.get('route', 'direct')
+    sampler = route in ('sampler', 'chain', 'msampler', 'mchain')
+    chain = route in ('chain', 'mchain')
+    hidden = (['u'] if sampler else []) + (['v'] if chain else [])
+    if chain:
+        deps = [{'s': 'v', 'box': ids_box('sib1 pl n1')}, {'s': 'u', 'box': ids_box('v mi n1')}]
+    elif sampler:
+        deps = [{'s': 'u', 'box': ids_box('sib1 ti n1')}]
+    else:
+        deps = []
     cfg = {
         'kind': kind,
-        'vars': ['x', 'y', 'z'] if has_vars else [],
+        'vars': (['x', 'y', 'z'] if has_vars else []) + hidden,
         'consts': consts,
-        'instr': [] if d['instr'] == 'none' else [d['instr']],
-        'sibs': ['sibling_1'] if kind == 'list' else [],
+        'instr': ([] if d['instr'] == 'none' else [d['instr']]) + hidden,
+        'sibs': ['sibling_1', 'sibling_2'] if kind == 'list' else [],
+        'deps': deps,
         'numbered': [{'s': 'a', 'ch': ['a']}] if d['numb'] else [],
         'defaultFuncs': list(SPEC_DEFAULT_FUNCS),
         'userFuncs': ['f'] if d['userf'] else [],
@@ -120,7 +131,7 @@ def cfg_from_dims(kind, d, answers):
         'answers': [{'boxes': [ids_box(b) for b in a['boxes']], 'g': a['g']} for a in answers],
     }
     if kind == 'list':
-        cfg['aux'] = {'box1': 'x*y+2', 'box1_answer': 'y*x+2'}
+        cfg['aux'] = {'box1': 'x*y+2', 'box1_answer': 'y*x+2', 'sub': 'matrix' if route.startswith('m') else 'formula'}
     return cfg
 
 
@@ -139,8 +150,10 @@ def math_kwargs(cfg):
     from mitxgraders.helpers.calc import DEFAULT_VARIABLES
     kw = {}
     val = cfg['val']
+    from mitxgraders import DependentSampler
     variables = sorted(cfg['vars'])
-    sample_from = {v: _num(val[v]) for v in variables}
+    dep = {h['s']: box_text(h['box']) for h in cfg.get('deps', [])}
+    sample_from = {v: (DependentSampler(formula=dep[v]) if v in dep else _num(val[v])) for v in variables}
     heads = sorted(h['s'] for h in cfg['numbered'])
     for h in heads:
         sample_from[h] = _num(val[h])
@@ -190,7 +203,7 @@ def item_answers(cfg):
 
 def build_grader(cfg):
     """-> function(list of box texts) -> raw result of the real grader"""
-    from mitxgraders import FormulaGrader, NumericalGrader, MatrixGrader, SumGrader, ListGrader
+    from mitxgraders import FormulaGrader, NumericalGrader, MatrixGrader, SumGrader, ListGrader, DependentSampler
     kw = math_kwargs(cfg)
     kind = cfg['kind']
     if kind == 'formula':
@@ -212,8 +225,9 @@ def build_grader(cfg):
         return lambda boxes: g(None, list(boxes))
     if kind == 'list':
         fv = kw.get('variables', [])
+        fv = [v for v in fv if not isinstance(kw['sample_from'][v], DependentSampler)]
         first = FormulaGrader(variables=fv, sample_from={v: kw['sample_from'][v] for v in fv})
-        second = FormulaGrader(**kw)
+        second = (MatrixGrader if cfg['aux'].get('sub') == 'matrix' else FormulaGrader)(**kw)
         g = ListGrader(answers=[cfg['aux']['box1_answer'], item_answers(cfg)], subgraders=[first, second], ordered=True)
         box1 = cfg['aux']['box1']
 
@@ -297,6 +311,10 @@ def describe(cfg):
     kw = math_kwargs(cfg)
     kw.pop('sample_from', None)
     kw.pop('tolerance', None)
+    if cfg.get('deps'):
+        kw['dependent_samplers'] = {h['s']: box_text(h['box']) for h in cfg['deps']}
+    if cfg.get('aux', {}).get('sub') == 'matrix':
+        kw['second_subgrader'] = 'MatrixGrader'
     kw['user_functions'] = sorted(kw.get('user_functions', {}))
     kw['answers'] = [[box_text(b) for b in a['boxes']] + [a['g']] for a in cfg['answers']]
     if cfg['entryPartial']:
@@ -566,7 +584,8 @@ class Gen(object):
         cfg = {'kind': kind, 'vars': variables, 'consts': consts, 'instr': instr, 'sibs': [], 'numbered': numbered,
                'defaultFuncs': list(SPEC_DEFAULT_FUNCS), 'userFuncs': list(self.user_funcs), 'wmode': wmode,
                'white': white, 'black': black, 'required': required, 'forbidden': forbidden,
-               'metric': r.random() < 0.3, 'entryPartial': False, 'dummy': dummy, 'val': val, 'answers': []}
+               'metric': r.random() < 0.3, 'entryPartial': False, 'dummy': dummy, 'val': val, 'answers': [],
+               'deps': []}
         # ---- answers and the base of the submission
         partial_tree = None
         if kind == 'matrix':
@@ -583,15 +602,44 @@ class Gen(object):
             e1 = self.simple_expr(2, plain)
             e2 = self.answer_expr(1, author_names)
             op = r.choice('+*')
-            cfg['sibs'] = ['sibling_1']
+            cfg['sibs'] = ['sibling_1', 'sibling_2']
             sv = self.exact(e1, {k: _num(v) for k, v in val.items() if v.get('k') == 'v'})
             if abs(sv.numerator) > 30000 or sv.denominator != 1:
                 e1 = ('var', plain[0])
                 sv = self.exact(e1, {k: _num(v) for k, v in val.items() if v.get('k') == 'v'})
             val['sibling_1'] = V(int(sv))
-            cfg['aux'] = {'box1': box_text(self.render(self.commute(e1))), 'box1_answer': box_text(self.render(e1))}
-            answers = [([('bin', op, ('var', 'sibling_1'), e2)], 'full')]
-            self.expanded = ('bin', op, e1, e2)
+            val['sibling_2'] = NP
+            cfg['aux'] = {'box1': box_text(self.render(self.commute(e1))), 'box1_answer': box_text(self.render(e1)),
+                          'sub': r.choice(['formula', 'formula', 'matrix'])}
+            # the route by which the second box reaches the first input: named in the answer, through a dependent
+            # sampling set of an instructor variable, or through a chain of two such sets
+            route = r.choice(['direct', 'sampler', 'sampler', 'chain'])
+            sib = ('var', 'sibling_1')
+            if route == 'direct':
+                head, head_expanded = sib, e1
+            else:
+                k1 = self.num(1, 3)
+                op1 = r.choice('+*')
+                f1 = sib if r.random() < 0.4 else ('bin', op1, sib, k1)
+                x1 = e1 if f1 is sib else ('bin', op1, e1, k1)
+                if route == 'sampler':
+                    deps = [('u', f1)]
+                    head_expanded = x1
+                else:
+                    k2 = self.num(1, 3)
+                    op2 = r.choice('+-')
+                    deps = [('v', f1), ('u', ('bin', op2, ('var', 'v'), k2))]
+                    head_expanded = ('bin', op2, x1, k2)
+                    if r.random() < 0.5:
+                        deps.reverse()
+                head = ('var', 'u')
+                for nm, f in deps:
+                    cfg['vars'].append(nm)
+                    cfg['instr'].append(nm)
+                    cfg['deps'].append({'s': nm, 'box': self.render(f)})
+                self.author_only = list(cfg['instr'])
+            answers = [([('bin', op, head, e2)], 'full')]
+            self.expanded = ('bin', op, head_expanded, e2)
         else:
             ans = self.answer_expr(r.randint(1, 3), author_names)
             answers = [([ans], 'full')]
@@ -729,9 +777,9 @@ def run(ctx):
     reached = set()
     drift = {}
     # thorough: the rich template set around the baseline for every kind, plus all pairs of option changes (with the
-    # quick template set) for FormulaGrader (whose validation code the other kinds share)
+    # quick template set) for FormulaGrader (whose validation code the other kinds share) and for the second box of ordered lists
     runs = [(part, 'quick') for part in KINDS] if ctx.quick else \
-        [(part, 'thorough') for part in KINDS] + [('formula', 'pairs')]
+        [(part, 'thorough') for part in KINDS] + [('formula', 'pairs'), ('list', 'pairs')]
     for part, tier in runs:
         d = os.path.join(ctx.scratch, 'cases_%s_%s' % (part, tier))
         ctx.tlc('expr/MC_Restrictions.tla', 'expr/MC_Restrictions_%s_%s.cfg' % (part, tier), dump=d, timeout=5000)
